@@ -59,6 +59,11 @@ class SelectorList(cssutils.util.Base, cssutils.util.ListSeq):
             id(self),
         )
 
+    def __delitem__(self, index):
+        """Overwrite ListSeq.__delitem__ (a read-only list refuses)"""
+        self._checkReadonly()
+        super().__delitem__(index)
+
     def __setitem__(self, index, newSelector):
         """Overwrite ListSeq.__setitem__
 
